@@ -116,17 +116,17 @@ ADDED = {
  "C06": " Equality pairs include a masked weekday expressed as the list of all its dates.",
  "C08": " Every add_months case is repeated with a time of day on the start date.",
  "C12": " A fifth of the curves have flat sections (equal neighbouring node values), some are all ones.",
- "C17": " A wide stage stores 17-40 of 100 names with requests differing among the early names.",
- "C18": " First-order / second-order pairs derived from one another (shared storage) must be refused too.",
- "C09": " The re-based twin market spells every occurrence of a currency code in its own mix of upper and lower case.",
+ "C17": " A wide stage stores 17-40 of 100 names with requests differing among the early names; a long-request stage asks for 257-320 names.",
+ "C18": " First-order / second-order pairs derived from one another (shared storage) must be refused too; every operand is also combined with itself.",
+ "C09": " The re-based twin market spells every occurrence of a currency code in its own mix of upper and lower case; every dated valid set is also tried with one / all settlements moved by a fraction of a second.",
  "C10": " 20% of update items re-quote a pair at its current value (only the number kind / own variables change); refused updates include a quoted pair with another settlement date.",
  "C11": " The generic constructor is fed float, first-order and second-order node values; a fifth of the curves have flat sections, some are all ones.",
- "C13": " A and b are handed over as row-major, column-major or strided views; least squares is also allowed on square systems; whole systems are scaled by exact powers of two (2^+-35..70) in 25% of draws; a fifth of the systems have small integer entries (exact pivot ties).",
- "C14": " 40% of the knot sequences are scaled by 2^-70..-30 or 2^20..40; the vectorised entry points PPSpline::bspldnev / bsplmatrix are compared with the scalar functions; 2.5% of the sequences have 64-190 knots.",
- "C15": " Also: basis functions at dual abscissae through the four public dual entry points, dual data x dual abscissa for m = 0 and 1 with mixed second-order terms, re-solving an object (history independence), too few sites with least squares allowed, a scale-covariance relation (the problem re-solved on a domain multiplied by 2^-70..-30 / 2^20..40), and interior data sites listed in another order.",
- "C16": " FX markets are saved freshly built or after 1-2 quote updates; settlement date-times carry sub-second parts.",
- "C19": " Comparisons also through the Number container in six operand positions and on pairs of special floats (signed zeros, NaN, infinities, neighbouring doubles, subnormals); sums through five kinds of iterator.",
- "C20": " Documents are also mutated by re-shaping a serialised array (same element count); add_bus_days is held to its error contract (error iff non-business start).",
+ "C13": " A and b are handed over as row-major, column-major or strided views; least squares is also allowed on square systems; whole systems are scaled by exact powers of two (2^+-35..70) in 25% of draws; a fifth of the systems have small integer entries (exact pivot ties); 30% of the tall systems repeat an equation.",
+ "C14": " 40% of the knot sequences are scaled by 2^-70..-30 or 2^20..40; the vectorised entry points PPSpline::bspldnev / bsplmatrix are compared with the scalar functions; 2.5% of the sequences have 64-190 knots; zero points are passed as -0.0 in half of the cases.",
+ "C15": " Also: basis functions at dual abscissae through the four public dual entry points, dual data x dual abscissa for m = 0 and 1 with mixed second-order terms, re-solving an object (history independence), too few sites with least squares allowed, a scale-covariance relation (the problem re-solved on a domain multiplied by 2^-70..-30 / 2^20..40), interior data sites listed in another order, and a long-knot-sequence evaluation stage (270-390 knots).",
+ "C16": " FX markets are saved freshly built or after 1-2 quote updates; settlement date-times carry sub-second parts; calendar documents with the holiday list in another order; wide numbers loaded back to back.",
+ "C19": " Comparisons also through the Number container in six operand positions and on pairs of special floats (signed zeros, NaN, infinities, neighbouring doubles, subnormals); sums through five kinds of iterator and of related terms; decimal remainder pairs with near-integer quotients.",
+ "C20": " Documents are also mutated by re-shaping a serialised array (same element count) and by making a serialised spline degenerate in three fields at once; add_bus_days is held to its error contract (error iff non-business start).",
 }
 
 def main():
@@ -175,7 +175,7 @@ def main():
         }],
         "checks": checks,
         "not_applicable": na,
-        "notes": "Entry point ./check <ID> --tier quick|thorough; exit 0/1/2 (2 = inconclusive or infrastructure, never a verdict). VERIF_SEED selects the seed (default 1). The thorough tier appends a coverage-guided libFuzzer stage (tools/fuzz_stage.sh; needs the nightly toolchain, otherwise it is skipped and recorded as such). known_findings.json lists 1 recorded and 12 repaired defects; seeded/ holds 120 confirmed breaking changes with the check that catches each (DESIGN.md section 12).",
+        "notes": "Entry point ./check <ID> --tier quick|thorough; exit 0/1/2 (2 = inconclusive or infrastructure, never a verdict). VERIF_SEED selects the seed (default 1). The thorough tier appends a coverage-guided libFuzzer stage (tools/fuzz_stage.sh; needs the nightly toolchain, otherwise it is skipped and recorded as such). known_findings.json lists 1 recorded and 12 repaired defects; seeded/ holds 140 confirmed breaking changes with the check that catches each (DESIGN.md section 12).",
     }
     json.dump(m, open(os.path.join(ROOT, "MANIFEST.json"), "w"), indent=1)
     print("checks:", len(checks), "not_applicable:", len(na))
